@@ -73,7 +73,7 @@ def check(run):
     _r2(run, classes)
     _r3(run, classes)
     _r4(run, prog)
-    run.include('C01', {f for f in FILES if f.endswith('.pyx') and '/model/plasma/' in f},
+    run.include('C01', {f for f in FILES if f.endswith('.pyx') and '/model/plasma/' in f} | {'cherab/core/plasma/node.pyx', 'cherab/core/plasma/model.pyx', 'cherab/core/utility/notify.py'},
                 'the rates and species a model caches must follow changes of the plasma and the atomic data')
     from ..cachekey import check_caches
     check_caches(run, [m_ for m_ in prog.modules.values() if m_.relpath in set(FILES) and not m_.name.endswith('#pxd')], 'C03-K', prog=prog)
